@@ -383,7 +383,7 @@ func c11Process(c *core.Ctx) {
 			return fmt.Sprintf("%s probe %s %d", self, filepath.Join(h.root, name+".json"), exit)
 		}
 		loc := filepath.Join(h.dags, "p.yaml")
-		text := "params: " + yq(defP) + "\nhandlerOn:\n  exit:\n    command: " + yq(probe("onexit", 0)) + "\n  failure:\n    command: " + yq(probe("onfailure", 0)) +
+		text := "env:\n  - VERIF_C11_ENVV: value-of-the-recorded-run\nparams: " + yq(defP) + "\nhandlerOn:\n  exit:\n    command: " + yq(probe("onexit", 0)) + "\n  failure:\n    command: " + yq(probe("onfailure", 0)) +
 			"\nsteps:\n  - name: s1\n    command: " + yq(probe("s1", 0)) + "\n  - name: s2\n    command: " + yq(probe("s2", 1)) + "\n    depends: [s1]\n"
 		_ = os.WriteFile(loc, []byte(text), 0644)
 		desc := map[string]any{"start_params": P, "default_params": defP, "use_default": useDefault, "tokens": toks}
@@ -428,6 +428,14 @@ func c11Process(c *core.Ctx) {
 						}
 					}
 				}
+				// the definition's env: section as the recorded run had it (steps only: the steps
+				// of a retry come from the record)
+				if f == "s1" || f == "s2" {
+					c.Count("obligations", 1)
+					if got := p.Env["VERIF_C11_ENVV"]; got != "value-of-the-recorded-run" {
+						v("process-env-section|"+phase, fmt.Sprintf("%s: %s sees $VERIF_C11_ENVV = %q, the run that is repeated had %q in its env: section", phase, f, got, "value-of-the-recorded-run"))
+					}
+				}
 				if _, extra := p.Env[strconv.Itoa(len(toks)+1)]; extra {
 					v("process-extra-positional|"+phase, fmt.Sprintf("%s: %s sees a parameter $%d although only %d were given", phase, f, len(toks)+1, len(toks)))
 				}
@@ -445,8 +453,16 @@ func c11Process(c *core.Ctx) {
 			for _, f := range []string{"s1", "s2", "onfailure", "onexit"} {
 				os.Remove(filepath.Join(h.root, f+".json"))
 			}
+			if idx%2 == 0 {
+				// the definition is edited between the run and its retry
+				edited := strings.Replace(text, "value-of-the-recorded-run", "edited-after-the-run", 1)
+				_ = os.WriteFile(loc+".tmp", []byte(edited), 0644)
+				_ = os.Rename(loc+".tmp", loc)
+				c.Count("definitions_edited_before_the_retry", 1)
+			}
 			_, out, _ = h.run(60*time.Second, "retry", "--req="+first, loc)
 			judge("retry", "s2", "onfailure", "onexit")
+			_ = os.WriteFile(loc, []byte(text), 0644)
 			c.Count("retries", 1)
 			if idx%3 == 0 && len(seen) == 0 {
 				// restart repeats the latest run: make the first one the latest again
